@@ -2,7 +2,8 @@
 Griffe objects / the real CPython classes onto the spec's result records, and the per-batch replay worker.
 
 A *case* is one CASE record printed by TLC:
-   chain: [{hdr: {dc, init, kw, hand, assign}, fields: [[name, form], ...]}, ...]   class i+1 derives from class i
+   chain: [{hdr: {dc, init, kw, hand, assign}, base, fields: [[name, form], ...]}, ...]   classes in definition order,
+          class i derives from class `base` (1-based index of an earlier class, 0 = no base): a chain or a tree
    wf:    CPython creates every class (no TypeError)
    tags:  defect triggers present in the program (Dataclass.tla Tags)
    impl:  per class {own, params: [[name, kind, hasdef]...], dataclass}   transcription of the extension
@@ -105,7 +106,8 @@ def render_chain(chain: list, variant: int, prefix: str) -> str:
                 out.append(f"@{sp['dataclass']}({', '.join(args)})")
             else:
                 out.append(f"@{sp['dataclass']}")
-        out.append(f"class {names[i]}({names[i - 1]}):" if i else f"class {names[i]}:")
+        base = cls.get("base", i)
+        out.append(f"class {names[i]}({names[base - 1]}):" if base else f"class {names[i]}:")
         body = []
         for name, form in cls["fields"]:
             body += render_field(name, form, variant)
